@@ -80,6 +80,8 @@ func init() {
 				r.Opp(x)
 			case "invert":
 				r.Invert(x)
+			case "divstepinvert":
+				r.VerifDivstepInvert(x)
 			case "set":
 				r.Set(x)
 			case "select":
